@@ -23,6 +23,22 @@ impl<K, V> Default for BTreeMap<K, V> {
 }
 
 impl<K, V> BTreeMap<K, V> {
+    /// Swap two slots with typed moves. `slice::swap` / `mem::swap` go through
+    /// `swap_nonoverlapping_chunks`, a loop over 8-byte words whose trip count
+    /// depends on the element size (and then needs a large unwind bound).
+    fn swap_slots(slots: &mut [Option<(K, V)>; CAP], a: usize, b: usize) {
+        if a == b {
+            return;
+        }
+        unsafe {
+            let pa: *mut Option<(K, V)> = &mut slots[a];
+            let pb: *mut Option<(K, V)> = &mut slots[b];
+            let t = core::ptr::read(pa);
+            core::ptr::write(pa, core::ptr::read(pb));
+            core::ptr::write(pb, t);
+        }
+    }
+
     pub(crate) const fn new() -> Self {
         Self {
             slots: [None, None, None, None],
@@ -74,7 +90,7 @@ impl<K, V> BTreeMap<K, V> {
         let mut i = 0;
         while i + 1 < CAP {
             if i + 1 < self.len {
-                self.slots.swap(i, i + 1);
+                Self::swap_slots(&mut self.slots, i, i + 1);
             }
             i += 1;
         }
@@ -227,7 +243,7 @@ impl<K: Ord, V> BTreeMap<K, V> {
         let mut i = CAP - 1;
         while i > 0 {
             if i > p && i <= l {
-                self.slots.swap(i, i - 1);
+                Self::swap_slots(&mut self.slots, i, i - 1);
             }
             i -= 1;
         }
@@ -243,7 +259,7 @@ impl<K: Ord, V> BTreeMap<K, V> {
         let mut i = 0;
         while i + 1 < CAP {
             if i >= p && i + 1 < self.len {
-                self.slots.swap(i, i + 1);
+                Self::swap_slots(&mut self.slots, i, i + 1);
             }
             i += 1;
         }
@@ -263,7 +279,12 @@ impl<K: Ord, V> BTreeMap<K, V> {
         let mut i = 0;
         while i < CAP {
             if i >= p && i < self.len {
-                core::mem::swap(&mut out.slots[i - p], &mut self.slots[i]);
+                // out.slots[i - p] is None: move the entry over, leave None behind
+                unsafe {
+                    let v = core::ptr::read(&self.slots[i]);
+                    core::ptr::write(&mut self.slots[i], None);
+                    core::ptr::write(&mut out.slots[i - p], v);
+                }
             }
             i += 1;
         }
